@@ -397,6 +397,26 @@ macro_rules! mark_len {
 	)*};
 }
 
+/// Compile-time probe "is this type marked ConstEncodedLen?" (inherent method wins over the trait's
+/// fallback when the bound holds), so that the mark is *observed* for every MaxEncodedLen zoo type
+/// instead of being taken from a hand-written list.
+#[cfg(feature = "max-encoded-len")]
+pub struct CelProbe<T>(pub std::marker::PhantomData<T>);
+#[cfg(feature = "max-encoded-len")]
+pub trait CelFallback {
+	fn is_cel(&self) -> bool {
+		false
+	}
+}
+#[cfg(feature = "max-encoded-len")]
+impl<T> CelFallback for CelProbe<T> {}
+#[cfg(feature = "max-encoded-len")]
+impl<T: crate::codec::ConstEncodedLen> CelProbe<T> {
+	pub fn is_cel(&self) -> bool {
+		true
+	}
+}
+
 #[cfg(feature = "max-encoded-len")]
 macro_rules! mark {
 	($v:ident; mel: $($t:ty),* $(,)?) => {$(
@@ -404,6 +424,9 @@ macro_rules! mark {
 			let name = stringify!($t);
 			let e = $v.iter_mut().find(|e| e.name == name).unwrap_or_else(|| panic!("zoo: no entry {name}"));
 			*e = e.clone().mel::<$t>();
+			#[allow(unused_imports)]
+			use CelFallback as _;
+			e.cel = CelProbe::<$t>(std::marker::PhantomData).is_cel();
 		}
 	)*};
 	($v:ident; cel: $($t:ty),* $(,)?) => {$(
@@ -459,6 +482,10 @@ pub fn zoo() -> Vec<Entry> {
 		BTreeMap<u8, u8>, BTreeMap<u32, String>, BTreeMap<String, Vec<u16>>, BTreeMap<(u8, u8), Option<u32>>,
 		BTreeMap<i64, BTreeMap<u8, bool>>, BTreeMap<u16, BTreeSet<u8>>);
 	add!(v; codec: VecDeque<()>, LinkedList<()>, BTreeSet<()>);
+
+	// wrappers of sum types (bounded but not constant length)
+	add!(v; full: Box<Option<u8>>, Box<Compact<u64>>, Range<Option<u16>>, RangeInclusive<Result<u8, u32>>, (u8, Box<Compact<u16>>),
+		[Range<Compact<u8>>; 3], Box<Result<bool, u64>>, [Box<Option<u16>>; 2], PhantomData<Option<u8>>);
 
 	// less travelled combinations (rarely used impls, deeper nests, edge shapes)
 	add!(v; full: Vec<[u8; 32]>, VecDeque<Vec<u8>>, Option<Option<Option<bool>>>, Result<Result<u8, u16>, Vec<u8>>,
@@ -550,7 +577,8 @@ pub fn zoo() -> Vec<Entry> {
 			(u8,), (u8, u16), (u8, u16, u32), (u8, u16, u32, u64, u128, i8, i16, i32, i64, i128, bool, u8, u16, u32, u64, u8, u16),
 			[Box<u32>; 3], Range<u128>, RangeInclusive<u8>, Range<i64>, [Duration; 2], [NonZeroU8; 4], [u32; 2048], [[[u8; 2]; 2]; 2],
 			Box<[u8; 100000]>, [(); 0]);
-		mark!(v; mel: Option<Duration>, Option<NonZeroU128>, Option<Option<Option<bool>>>, Option<Compact<()>>, Compact<u8>, Compact<u16>, Compact<u32>, Compact<u64>, Compact<u128>, Compact<()>,
+		mark!(v; mel: Box<Option<u8>>, Box<Compact<u64>>, Range<Option<u16>>, RangeInclusive<Result<u8, u32>>, (u8, Box<Compact<u16>>),
+			[Range<Compact<u8>>; 3], Box<Result<bool, u64>>, [Box<Option<u16>>; 2], PhantomData<Option<u8>>, Option<Duration>, Option<NonZeroU128>, Option<Option<Option<bool>>>, Option<Compact<()>>, Compact<u8>, Compact<u16>, Compact<u32>, Compact<u64>, Compact<u128>, Compact<()>,
 			Option<u8>, Option<bool>, Option<Option<u32>>, Result<u8, bool>, Result<Option<u16>, Result<bool, u64>>,
 			Option<Compact<u32>>, Option<NonZeroU16>, Range<Compact<u64>>, [Option<u8>; 3], [Compact<u32>; 4],
 			(Compact<u8>, Compact<u128>), (Compact<u64>,), Arc<u16>, Box<Option<Box<u16>>>, Option<Box<[u64; 3]>>,
